@@ -126,3 +126,46 @@ Proof.
   setoid_replace ((n - 1) / n * n) with (n - 1) by (field; intros E; rewrite E in Hn0; discriminate).
   apply (Qplus_le_l _ _ (1 - n)). ring_simplify. exact HB.
 Qed.
+
+(* ---------------- rank normalisation ---------------- *)
+(* the integer-chain formula is the rational-chain formula on the injected chains *)
+Theorem rhat_sq_as_q chains : rhat_sq chains = rhat_sq_q (map zq chains).
+Proof.
+  assert (E : qlen (hd [] (map zq chains)) = inject_Z (zlen (hd [] chains))).
+  { destruct chains as [|c r]; [reflexivity|]. cbn [map hd]. unfold qlen, zlen, zq. rewrite map_length. reflexivity. }
+  unfold rhat_sq, rhat_sq_q. rewrite !map_map, E. reflexivity.
+Qed.
+
+(* the argument handed to Phi^-1 for a pooled draw lies strictly inside (0,1): the average rank r of a member of the
+   pool satisfies 1 <= r <= N, and u = (r - 3/8)/(N + 1/4) *)
+Lemma filter_two_le {A} (p q : A -> bool) l : (forall a, p a = true -> q a = true -> False) ->
+  (length (filter p l) + length (filter q l) <= length l)%nat.
+Proof.
+  intros D. induction l as [|a l IH]; cbn [filter length]; [lia|].
+  destruct (p a) eqn:Ep; destruct (q a) eqn:Eq; cbn [length]; try lia; try (exfalso; eapply D; eassumption).
+Qed.
+
+Lemma filter_in_pos {A} (q : A -> bool) l a : In a l -> q a = true -> (1 <= length (filter q l))%nat.
+Proof.
+  induction l as [|b l IH]; intros Hin Hq; [destruct Hin|]. cbn [filter].
+  destruct Hin as [->|Hin]; [rewrite Hq; cbn; lia|]. destruct (q b); cbn [length]; [lia | apply IH; assumption].
+Qed.
+
+Theorem blom_in_unit_interval pool x : In x pool -> 0 < blom pool x /\ blom pool x < 1.
+Proof.
+  intros Hin. unfold blom, avg_rank, qcount, qlen.
+  set (L := length (filter (fun y => negb (Qle_bool x y)) pool)).
+  set (E := length (filter (fun y => Qeq_bool y x) pool)).
+  set (N := length pool).
+  assert (HE : (1 <= E)%nat) by (apply (filter_in_pos _ pool x Hin); apply Qeq_bool_iff; reflexivity).
+  assert (HLE : (L + E <= N)%nat).
+  { apply filter_two_le. intros a Ha Hb. apply negb_true_iff in Ha. apply Qeq_bool_iff in Hb.
+    assert (Qle_bool x a = true) by (apply Qle_bool_iff; rewrite Hb; apply Qle_refl). congruence. }
+  assert (HD : 0 < inject_Z (Z.of_nat N) + (1 # 4)).
+  { unfold Qlt, Qplus, inject_Z; cbn. lia. }
+  split.
+  - apply Qlt_shift_div_l; [exact HD|]. rewrite Qmult_0_l.
+    unfold Qlt, Qminus, Qplus, Qdiv, Qmult, Qinv, Qopp, inject_Z; cbn. lia.
+  - apply Qlt_shift_div_r; [exact HD|]. rewrite Qmult_1_l.
+    unfold Qlt, Qminus, Qplus, Qdiv, Qmult, Qinv, Qopp, inject_Z; cbn. lia.
+Qed.
